@@ -349,7 +349,29 @@ class SymFQN:
         return repr(self)
 
     def __hash__(self):
-        raise Unsupported('symbolic name is unhashable')
+        # as for SymName: one hash for all, lookups fall back to ==
+        return 0
+
+    def __eq__(self, o):
+        if isinstance(o, SymName):
+            o = SymFQN([o])
+        if not isinstance(o, SymFQN) or len(o.parts) != len(self.parts):
+            return False
+        for a, b in zip(self.parts, o.parts):
+            if not (a == b):        # z3-decided fork per part
+                return False
+        return True
+
+    def __ne__(self, o):
+        return not self.__eq__(o)
+
+    def __contains__(self, sub):
+        if sub == '.':
+            return len(self.parts) > 1
+        raise Unsupported('substring test on a symbolic dotted name')
+
+    def __len__(self):
+        return 2 * len(self.parts) - 1
 
     def __bool__(self):
         return True
